@@ -26,7 +26,7 @@ func init() {
 		Trusted: []string{"purity table for stdlib callees used in loop conditions", "VTA call graph with pass-site refinement (DESIGN 2.2)"},
 		Assumes: []string{"the destination writer does not fail (statement)", "user-supplied extensions out of scope"},
 		Rules: []func(*World, *Report){ruleCountdownUnderflowC01, ruleStuckCycles, ruleInlineParsersAdvance, rulePanicInventory, ruleRegistryAgreement, ruleAttributeAssertions,
-			ruleTolerantDispatch, ruleRenderFuncsNilError, ruleRenderReturnsFlush, ruleWalkErrors, ruleLookaheadCovered, ruleComputedSliceEnd, ruleVariableStepPositive, ruleBlockStateOwner, ruleLinkSearchComplete, ruleParentDereferenceGuarded, ruleFlaggedWindowInvariant, ruleSubParsersProgress},
+			ruleTolerantDispatch, ruleRenderFuncsNilError, ruleRenderReturnsFlush, ruleWalkErrors, ruleLookaheadCovered, ruleComputedSliceEnd, ruleVariableStepPositive, ruleBlockStateOwner, ruleLinkSearchComplete, ruleParentDereferenceGuarded, ruleFlaggedWindowInvariant, ruleSubParsersProgress, ruleNameComparisonsAgree},
 	})
 }
 
